@@ -227,6 +227,8 @@ class Element:
         for channel, signal in self._data.items():
             if "array" in signal.keys():
                 outdict[channel] = dict(signal["array"])
+                if "flags" in signal.keys():
+                    outdict[channel]["flags"] = np.array(signal["flags"])
                 if includetime and "time" not in signal["array"].keys():
                     N = len(signal["array"]["wfm"])
                     dur = N / signal["SR"]
